@@ -19,6 +19,8 @@ func buildGin(cs *caseState, sp godi.Provider) http.Handler {
 
 	var so []godigin.Option
 	switch o.ErrH {
+	case ErrHNil:
+		so = append(so, godigin.WithErrorHandler(nil))
 	case ErrHCustom:
 		// gin's idiom (and godi's own default handler): abort the chain
 		so = append(so, godigin.WithErrorHandler(func(c *gin.Context, err error) {
@@ -32,6 +34,9 @@ func buildGin(cs *caseState, sp godi.Provider) http.Handler {
 			look(c).onErrH(err)
 			c.String(stErrH, "scope error")
 		}))
+	}
+	if o.CloseH == "nil-option" {
+		so = append(so, godigin.WithCloseErrorHandler(nil))
 	}
 	if o.CloseH == "custom" {
 		so = append(so, godigin.WithCloseErrorHandler(func(error) { cs.closeErrH.Add(1) }))
